@@ -5,33 +5,45 @@ package nebula
 import (
 	"bytes"
 	"fmt"
+	"reflect"
 	"runtime"
 	"strconv"
 	"sync"
 )
 
-// verifRWMutex stands in for the embedded sync.RWMutex of HostMap, RelayState, HandshakeManager,
-// LightHouse and RemoteList in the C34 build (textual substitution through the build overlay, see
-// conf.d/C34.py "rewrite"). It behaves like sync.RWMutex and additionally records lock-discipline
-// violations that are latent deadlocks whatever the schedule:
+// verifRWMutexOf[T] stands in for the embedded sync.RWMutex of T in {HostMap, RelayState,
+// HandshakeManager, LightHouse, RemoteList} in the C34 build (textual substitution through the build
+// overlay, see conf.d/C34.py "rewrite"). It behaves like sync.RWMutex and additionally records
+// lock-discipline violations that are latent deadlocks whatever the schedule:
 //
 //   - recursive read locking: a goroutine that holds the read lock takes it again. sync.RWMutex
 //     gives waiting writers preference, so the second RLock blocks for ever as soon as a writer has
 //     queued between the two ("this prohibits recursive read locking" in the package documentation);
-//   - upgrading: a goroutine that holds the read lock asks for the write lock (immediate deadlock).
+//   - upgrading: a goroutine that holds the read lock asks for the write lock (immediate deadlock);
+//   - lock-order inversion between classes: one goroutine takes a lock of class B while holding one
+//     of class A, another path takes A while holding B. Read modes do not make that safe: every one
+//     of these locks has writers, and a writer queued on either lock turns the two read-holders into
+//     a cycle (the hang that exposed the HostMap/RemoteList inversion needed three goroutines).
 //
-// The race detector sees neither, and hitting the few-hundred-nanosecond window with a real writer is
-// hopeless; with the bookkeeping the hazard is reported the first time the code path runs.
-type verifRWMutex struct {
+// The race detector sees none of these, and hitting the windows with real goroutines is a matter
+// of luck; with the bookkeeping a hazard is reported the first time both code paths have run.
+type verifRWMutexOf[T any] struct {
 	mu      sync.RWMutex
 	hmu     sync.Mutex
 	readers map[uint64]int
 	foreign bool // an RUnlock by a goroutine that holds nothing was seen: bookkeeping not reliable for this mutex
 }
 
+type verifHeldLock struct {
+	class string
+	inst  any
+}
+
 var (
 	verifLockMu      sync.Mutex
 	verifLockReports = map[string]string{}
+	verifHeld        = map[uint64][]verifHeldLock{}
+	verifEdges       = map[[2]string]string{} // (held class, acquired class) -> first stack seen
 )
 
 func verifGoID() uint64 {
@@ -45,29 +57,82 @@ func verifGoID() uint64 {
 	return 0
 }
 
-func verifLockReport(kind string) {
+func verifStack(skip int) (first, full string) {
 	pcs := make([]uintptr, 24)
-	n := runtime.Callers(3, pcs)
+	n := runtime.Callers(skip, pcs)
 	frames := runtime.CallersFrames(pcs[:n])
-	var sig, full string
 	for {
 		f, more := frames.Next()
 		full += fmt.Sprintf("    %s\n        %s:%d\n", f.Function, f.File, f.Line)
-		if sig == "" && f.Function != "" {
-			sig = kind + " at " + f.Function
+		if first == "" && f.Function != "" {
+			first = f.Function
 		}
 		if !more {
 			break
 		}
 	}
+	return
+}
+
+func verifLockReport(kind string) {
+	first, full := verifStack(4)
 	verifLockMu.Lock()
+	sig := kind + " at " + first
 	if _, ok := verifLockReports[sig]; !ok {
 		verifLockReports[sig] = full
 	}
 	verifLockMu.Unlock()
 }
 
-func (m *verifRWMutex) RLock() {
+// verifAcquire records that goroutine g is about to block on a lock of the given class while holding
+// others, and reports an inversion when the opposite order was seen before.
+func verifAcquire(g uint64, class string, inst any) {
+	verifLockMu.Lock()
+	defer verifLockMu.Unlock()
+	for _, h := range verifHeld[g] {
+		if h.class == class {
+			continue // two instances of one class (two remote lists, two relay states): no fixed order is claimed
+		}
+		key := [2]string{h.class, class}
+		if _, ok := verifEdges[key]; !ok {
+			_, full := verifStack(4)
+			verifEdges[key] = full
+		}
+		if other, ok := verifEdges[[2]string{class, h.class}]; ok {
+			a, b := h.class, class
+			if a > b {
+				a, b = b, a
+			}
+			sig := "lock order inversion between " + a + " and " + b
+			if _, seen := verifLockReports[sig]; !seen {
+				_, full := verifStack(4)
+				verifLockReports[sig] = fmt.Sprintf("  %s taken while holding %s:\n%s  %s taken while holding %s:\n%s", class, h.class, full, h.class, class, other)
+			}
+		}
+	}
+	verifHeld[g] = append(verifHeld[g], verifHeldLock{class, inst})
+}
+
+func verifRelease(g uint64, inst any) {
+	verifLockMu.Lock()
+	defer verifLockMu.Unlock()
+	hs := verifHeld[g]
+	for i := len(hs) - 1; i >= 0; i-- {
+		if hs[i].inst == inst {
+			hs = append(hs[:i], hs[i+1:]...)
+			break
+		}
+	}
+	if len(hs) == 0 {
+		delete(verifHeld, g)
+	} else {
+		verifHeld[g] = hs
+	}
+}
+
+func (m *verifRWMutexOf[T]) class() string { return reflect.TypeFor[T]().Name() }
+
+func (m *verifRWMutexOf[T]) RLock() {
 	g := verifGoID()
 	m.hmu.Lock()
 	if m.readers == nil {
@@ -79,10 +144,11 @@ func (m *verifRWMutex) RLock() {
 	if again {
 		verifLockReport("recursive read lock")
 	}
+	verifAcquire(g, m.class(), m)
 	m.mu.RLock()
 }
 
-func (m *verifRWMutex) TryRLock() bool {
+func (m *verifRWMutexOf[T]) TryRLock() bool {
 	if !m.mu.TryRLock() {
 		return false
 	}
@@ -93,10 +159,13 @@ func (m *verifRWMutex) TryRLock() bool {
 	}
 	m.readers[g]++
 	m.hmu.Unlock()
+	verifLockMu.Lock()
+	verifHeld[g] = append(verifHeld[g], verifHeldLock{m.class(), m})
+	verifLockMu.Unlock()
 	return true
 }
 
-func (m *verifRWMutex) RUnlock() {
+func (m *verifRWMutexOf[T]) RUnlock() {
 	g := verifGoID()
 	m.hmu.Lock()
 	if m.readers[g] > 0 {
@@ -109,10 +178,11 @@ func (m *verifRWMutex) RUnlock() {
 		m.readers = map[uint64]int{}
 	}
 	m.hmu.Unlock()
+	verifRelease(g, m)
 	m.mu.RUnlock()
 }
 
-func (m *verifRWMutex) Lock() {
+func (m *verifRWMutexOf[T]) Lock() {
 	g := verifGoID()
 	m.hmu.Lock()
 	up := m.readers[g] > 0 && !m.foreign
@@ -120,16 +190,29 @@ func (m *verifRWMutex) Lock() {
 	if up {
 		verifLockReport("write lock requested while holding the read lock")
 	}
+	verifAcquire(g, m.class(), m)
 	m.mu.Lock()
 }
 
-func (m *verifRWMutex) TryLock() bool { return m.mu.TryLock() }
-func (m *verifRWMutex) Unlock()       { m.mu.Unlock() }
-func (m *verifRWMutex) RLocker() sync.Locker {
-	return (*verifRLocker)(m)
+func (m *verifRWMutexOf[T]) TryLock() bool {
+	if !m.mu.TryLock() {
+		return false
+	}
+	g := verifGoID()
+	verifLockMu.Lock()
+	verifHeld[g] = append(verifHeld[g], verifHeldLock{m.class(), m})
+	verifLockMu.Unlock()
+	return true
 }
 
-type verifRLocker verifRWMutex
+func (m *verifRWMutexOf[T]) Unlock() {
+	verifRelease(verifGoID(), m)
+	m.mu.Unlock()
+}
 
-func (r *verifRLocker) Lock()   { (*verifRWMutex)(r).RLock() }
-func (r *verifRLocker) Unlock() { (*verifRWMutex)(r).RUnlock() }
+func (m *verifRWMutexOf[T]) RLocker() sync.Locker { return (*verifRLocker[T])(m) }
+
+type verifRLocker[T any] verifRWMutexOf[T]
+
+func (r *verifRLocker[T]) Lock()   { (*verifRWMutexOf[T])(r).RLock() }
+func (r *verifRLocker[T]) Unlock() { (*verifRWMutexOf[T])(r).RUnlock() }
